@@ -173,6 +173,21 @@ func (s *pnSession) nick() (n string, panicked bool) {
 	return s.C.GetNick(), false
 }
 
+// opt renders Client.GetServerOption(key): "-" absent, "=" + hex, "!" when it panics
+// (tracking disabled).
+func (s *pnSession) opt(key string) (out string) {
+	defer func() {
+		if r := recover(); r != nil {
+			out = "!"
+		}
+	}()
+	v, ok := s.C.GetServerOption(key)
+	if !ok {
+		return "-"
+	}
+	return "=" + Hex(v)
+}
+
 // ------------------------------------------------------------------ PING
 
 func pnDeliverPing(s *pnSession, params []string, tag string) (outs []string, wire bool, ok bool) {
@@ -431,6 +446,7 @@ func runPNSeq(c Case, connected bool) Result {
 	base, k := nick, 0     // the run of consecutive collisions: nickname it started from, length
 	rejected := []string{} // nicknames refused since the run started
 	registered := false
+	announced := map[string]int{} // NICKLEN / MAXNICKLEN as announced in 005 (coverage signature only)
 
 	for i, a := range c[4:] {
 		implCur := nick
@@ -505,10 +521,11 @@ func runPNSeq(c Case, connected bool) Result {
 			nickNow = Hex(n)
 		}
 		_ = nickPanics
+		state := ";n=" + nickNow + ";l=" + s.opt("NICKLEN") + "/" + s.opt("MAXNICKLEN")
 		if panicked {
-			fmt.Fprintf(&obs, "|%d:!;n=%s", i, nickNow)
+			fmt.Fprintf(&obs, "|%d:!%s", i, state)
 		} else {
-			fmt.Fprintf(&obs, "|%d:%s;r=%s;n=%s", i, HexList(outs), route, nickNow)
+			fmt.Fprintf(&obs, "|%d:%s;r=%s%s", i, HexList(outs), route, state)
 		}
 
 		// ---------------- oracle
@@ -522,7 +539,14 @@ func runPNSeq(c Case, connected bool) Result {
 		case ev.cmd == "!NICK":
 			sigs["user"] = true
 			if len(ev.params) > 0 {
-				req, base, k, rejected = ev.params[0], ev.params[0], 0, nil
+				x := ev.params[0]
+				if pnWireValid(x) && (len(outs) != 1 || len(nickLines) != 1 || nickLines[0] != x) {
+					fail("nick-altered", "event %d: Cmd.Nick(%q) wrote %q, want exactly NICK with that name (NICKLEN %s, MAXNICKLEN %s)", i, x, outs, s.opt("NICKLEN"), s.opt("MAXNICKLEN"))
+				}
+				if n, ok := announced["NICKLEN"]; ok && len(x) >= n {
+					sigs["user-at-limit"] = true
+				}
+				req, base, k, rejected = x, x, 0, nil
 			}
 		case ev.cmd == girc.PING:
 			sigs["ping"] = true
@@ -550,6 +574,8 @@ func runPNSeq(c Case, connected bool) Result {
 					fail("callback-empty-ignored", "event %d: the callback returned \"\" but the client wrote %q", i, outs)
 				case want != "" && len(outs) != 1:
 					fail("callback-mismatch", "event %d: callback(%q)=%q, the client wrote %q", i, cur, want, outs)
+				case want != "" && pnWireValid(want) && len(nickLines) == 1 && nickLines[0] != want && strings.HasPrefix(want, nickLines[0]):
+					fail("nick-altered", "event %d: callback(%q)=%q, but the client asked for %q, a cut of it (NICKLEN %s, MAXNICKLEN %s)", i, cur, want, nickLines[0], s.opt("NICKLEN"), s.opt("MAXNICKLEN"))
 				case want != "" && pnWireValid(want) && !strings.ContainsAny(want, "\x00") && (len(nickLines) != 1 || nickLines[0] != want):
 					fail("callback-mismatch", "event %d: callback(%q)=%q, the client wrote %q", i, cur, want, outs)
 				}
@@ -576,7 +602,12 @@ func runPNSeq(c Case, connected bool) Result {
 					kk = 3
 				}
 				sigs[fmt.Sprintf("echo-%s-k%d", where, kk)] = true
-				if want := base + strings.Repeat("_", k); prop != want {
+				if n, ok := announced["NICKLEN"]; ok && len(req) >= n {
+					sigs["echo-at-limit"] = true
+				}
+				if want := base + strings.Repeat("_", k); prop != want && strings.HasPrefix(want, prop) {
+					fail("nick-altered", "event %d: collision number %d on %q: the client asked for %q, a cut of %q (NICKLEN %s, MAXNICKLEN %s)", i, k, base, prop, want, s.opt("NICKLEN"), s.opt("MAXNICKLEN"))
+				} else if prop != want {
 					fail("collide-not-next", "event %d: collision number %d on %q proposes %q, want %q", i, k, base, prop, want)
 				}
 				for _, r := range rejected {
@@ -612,6 +643,18 @@ func runPNSeq(c Case, connected bool) Result {
 					stNick = ev.params[len(ev.params)-1]
 					sigs["ownnick"] = true
 					base, k, rejected = req, 0, nil
+				}
+			case girc.RPL_ISUPPORT:
+				sigs["005"] = true
+				if !noTracking && len(ev.params) >= 2 && strings.HasSuffix(ev.params[len(ev.params)-1], "this server") {
+					for _, t := range ev.params[1 : len(ev.params)-1] {
+						if name, v, ok := strings.Cut(t, "="); ok && (name == "NICKLEN" || name == "MAXNICKLEN") {
+							var n int
+							if _, err := fmt.Sscanf(v, "%d", &n); err == nil && n > 0 {
+								announced[name] = n
+							}
+						}
+					}
 				}
 			default:
 				sigs["other"] = true
@@ -780,6 +823,45 @@ func genPNOther(r *rand.Rand) string {
 	}
 }
 
+// genPN005 draws an ISUPPORT line whose NICKLEN / MAXNICKLEN sit around reqLen, the length
+// of the nickname the client is about to ask for: absent, 1, reqLen-1, reqLen, reqLen+1, 30.
+func genPN005(r *rand.Rand, reqLen int, hostile bool) (string, int) {
+	limit := func() int {
+		n := []int{0, 1, reqLen - 1, reqLen, reqLen, reqLen + 1, 30}[r.Intn(7)]
+		if n < 0 {
+			n = 1
+		}
+		return n
+	}
+	toks := []string{}
+	nl := limit()
+	if nl > 0 {
+		toks = append(toks, fmt.Sprintf("NICKLEN=%d", nl))
+	}
+	if r.Intn(3) == 0 {
+		if ml := limit(); ml > 0 {
+			toks = append(toks, fmt.Sprintf("MAXNICKLEN=%d", ml))
+			if nl == 0 {
+				nl = ml
+			}
+		}
+	}
+	for _, t := range []string{"CHANTYPES=#&", "NETWORK=TestNet", "CASEMAPPING=rfc1459", "SAFELIST", "CHANNELLEN=50"} {
+		if r.Intn(3) == 0 {
+			toks = append(toks, t)
+		}
+	}
+	if hostile && r.Intn(4) == 0 {
+		toks = append(toks, Pick(r, "NICKLEN", "NICKLEN=", "=5", "NICKLEN=abc", "NICKLEN=-3", "NICKLEN=0", "MAXNICKLEN=", "NICKLEN=9=9"))
+	}
+	r.Shuffle(len(toks), func(i, j int) { toks[i], toks[j] = toks[j], toks[i] })
+	text := "are supported by this server"
+	if hostile && r.Intn(8) == 0 {
+		text = Pick(r, "are supported", "this server", "")
+	}
+	return pnEv("005", "=irc.test", append(append([]string{"$N"}, toks...), text)...), nl
+}
+
 func genPNSeqCase(r *rand.Rand, hostile bool) Case {
 	nick := genPNNick(r)
 	kind, arg := "", ""
@@ -787,11 +869,11 @@ func genPNSeqCase(r *rand.Rand, hostile bool) Case {
 		kind = Pick(r, "c", "c", "a", "p")
 		switch kind {
 		case "c":
-			arg = Pick(r, "", "", "alt", "Alt_2", nick)
+			arg = Pick(r, "", "", "alt", "Alt_2", nick, "LongAlternative_Nick", strings.Repeat("n", 35))
 		case "a":
-			arg = Pick(r, "", "-2", "_", "|away", "0")
+			arg = Pick(r, "", "-2", "_", "|away", "0", "_a_rather_long_suffix")
 		default:
-			arg = Pick(r, "x", "_", "")
+			arg = Pick(r, "x", "_", "", "long_prefix_")
 		}
 		if hostile && r.Intn(6) == 0 {
 			arg = Pick(r, "a b", ":x", "caf\xc3\xa9") // (nicknames stay wire-transparent: "$R" is read back from the wire)
@@ -800,19 +882,47 @@ func genPNSeqCase(r *rand.Rand, hostile bool) Case {
 	c := Case{nick, kind, arg, ""}
 	n := 1 + r.Intn(8)
 	registered := false
-	pendingReq := true // a nickname request is outstanding
+	pendingReq := true  // a nickname request is outstanding
+	reqLen := len(nick) // (estimated) length of the nickname last asked for
+	limit := 0          // NICKLEN last announced (0: none)
+	isupport := func() {
+		ev, nl := genPN005(r, reqLen, hostile)
+		c = append(c, ev)
+		if nl > 0 {
+			limit = nl
+		}
+	}
+	grow := func() { // what the next proposal will roughly look like
+		switch kind {
+		case "":
+			reqLen++
+		case "c":
+			reqLen = len(arg)
+		default:
+			reqLen = len(nick) + len(arg)
+		}
+	}
 	for len(c)-4 < n {
-		x := r.Intn(20)
+		x := r.Intn(22)
 		switch {
 		case x < 9 && (pendingReq || hostile || r.Intn(4) == 0):
+			if r.Intn(3) == 0 {
+				isupport() // announced right before the run
+			}
 			runLen := 1 + r.Intn(6)
 			for j := 0; j < runLen && len(c)-4 < n+3; j++ {
 				c = append(c, genPNCollision(r, hostile))
-				if r.Intn(5) == 0 {
+				grow()
+				switch r.Intn(8) {
+				case 0:
 					c = append(c, genPNOther(r))
+				case 1:
+					isupport() // ... or in the middle of it
 				}
 			}
 			pendingReq = true
+		case x >= 20:
+			isupport()
 		case x < 12 && pendingReq:
 			if !registered {
 				switch r.Intn(8) {
@@ -828,12 +938,19 @@ func genPNSeqCase(r *rand.Rand, hostile bool) Case {
 					c = append(c, pnEv("001", "=irc.test", "$R", "Welcome to the test network"))
 				}
 				registered = true
+				if r.Intn(2) == 0 {
+					isupport() // the usual place: right after 001
+				}
 			} else {
 				c = append(c, pnEv("NICK", "=$N", "$R"))
 			}
 			pendingReq = false
 		case x < 14:
 			un := genPNNick(r)
+			if limit > 0 && limit < 40 && r.Intn(2) == 0 { // at / over the announced limit
+				un = "L" + RandBytes(r, limit-1+[]int{0, 0, 1, 5}[r.Intn(4)], pnNickAlphabet)
+			}
+			reqLen = len(un)
 			if hostile && r.Intn(5) == 0 {
 				un = Pick(r, "9start", "caf\xc3\xa9", "with space", "")
 			}
@@ -874,6 +991,9 @@ func pnFixedSeq() []Case {
 	}
 	welcome := pnEv("001", "=irc.test", "$R", "Welcome")
 	own := pnEv("NICK", "=$N", "$R")
+	isup := func(toks ...string) string {
+		return pnEv("005", "=irc.test", append(append([]string{"$N"}, toks...), "are supported by this server")...)
+	}
 	var out []Case
 	for k := 1; k <= 6; k++ {
 		out = append(out, append(Case{"me", "", "", ""}, in(k)...))                                            // before 001
@@ -901,6 +1021,19 @@ func pnFixedSeq() []Case {
 		append(append(Case{"me", "a", "-2", ""}, in(2)...), welcome, in(1)[0], own, in(1)[0]),
 		append(append(Case{"me", "p", "x", ""}, in(1)...), pnEv("001", "=irc.test", "Guest7", "Welcome"), in(1)[0]),
 		append(Case{"me", "c", "a b", ""}, in(1)...),
+		// ISUPPORT NICKLEN / MAXNICKLEN must not change what is asked for (seeded regression C17-4:
+		// Commands.Nick cutting the nickname to NICKLEN re-proposes the refused nickname)
+		append(Case{"me", "", "", "", welcome, isup("NICKLEN=9"), pnEv("!NICK", "", "abcdefghi")}, in(3)...),
+		append(Case{"me", "", "", "", welcome, isup("MAXNICKLEN=9", "NICKLEN=9", "NETWORK=TestNet"), pnEv("!NICK", "", "abcdefghijk")}, in(2)...),
+		append(Case{"abcdefghi", "", "", "", isup("NICKLEN=9")}, in(3)...),
+		append(Case{"me", "", "", "", isup("NICKLEN=1")}, in(2)...),
+		append(Case{"me", "", "", "", isup("MAXNICKLEN=2")}, in(2)...),
+		append(append(append(Case{"me", "", "", ""}, in(2)...), isup("NICKLEN=4")), append(in(2), append([]string{isup("NICKLEN=3", "MAXNICKLEN=30")}, in(1)...)...)...),
+		append(Case{"me", "c", "LongAlternative_Nick", "", welcome, isup("NICKLEN=9")}, in(2)...),
+		append(Case{"me", "a", "_a_rather_long_suffix", "", isup("NICKLEN=5")}, in(2)...),
+		append(Case{"me", "p", "long_prefix_", "", welcome, isup("NICKLEN=2", "MAXNICKLEN=2")}, in(1)...),
+		append(Case{"me", "", "", "", pnEv("005", "=irc.test", "$N", "NICKLEN", "NICKLEN=", "=5", "MAXNICKLEN=abc", "are supported by this server")}, in(1)...),
+		append(Case{"me", "", "", "", pnEv("005", "=irc.test", "$N", "NICKLEN=2", "are supported"), pnEv("005", "=irc.test", "NICKLEN=2"), pnEv("005", "=irc.test")}, in(1)...),
 		// PING shapes
 		Case{"me", "", "", "", pnEv("PING", "", "x"), pnEv("PING", ""), pnEv("PING", "", ""), pnEv("PING", "", ":x"), pnEv("PING", "", "a", "b c"), pnEv("PING", "=irc.test", "irc.test")},
 	)
